@@ -84,3 +84,16 @@ register('C08', 'translation_validation',
          "C02); input defaults are 0 in this family; t outside [0,T] not claimed; the Euler integral of x'=u follows from "
          "this per-step result together with C03's kernel result",
          "SMT translation validation with symbolic input samples and symbolic time (symx + z3)", "7/C08")
+register('C09', 'translation_validation',
+         "One inductive step of the ring buffers, decided by z3: the emitted function is executed once on symbolic state "
+         "AND symbolic buffer contents; it is proved that every buffer row afterwards holds the current value of exactly "
+         "one model variable in slot 0 and its old content shifted by one slot (the representation invariant), and that "
+         "every state variable's derivative equals the reference in which each delayed edge delivers weight x (source "
+         "round(d/dt) steps ago) and undelayed edges the current value - for mixtures of delayed/undelayed edges, several "
+         "delays per source or target, delays that are not multiples of dt, vectorize on and off. One step from an "
+         "arbitrary valid buffer covers runs of any length; the zero pre-history is the initial buffer (checked "
+         "concretely).",
+         "reals for floats; delays rounding to 2..4 (quick) / 2..6 (thorough) steps, <= 5 nodes, <= 5 edges; buffers are "
+         "identified by a concrete marker run (a cell receives another cell's marker); Connectivity ring buffers are "
+         "handled under C16; JAX refuses ring buffers (C20)",
+         "SMT translation validation with symbolic ring-buffer contents (inductive step; symx + z3)", "7/C09")
